@@ -47,8 +47,10 @@ func UnpadMessage(padded []byte) ([]byte, error) {
 		return nil, fmt.Errorf("invalid varint prefix in padded message: %d", varintLen)
 	}
 
+	// msgLen is attacker controlled: compare it with what is left after the prefix
+	// instead of adding to it, which would wrap around for lengths close to 2^64.
 	end := uint64(varintLen) + msgLen
-	if end > uint64(len(padded)) {
+	if msgLen > uint64(len(padded)-varintLen) {
 		return nil, fmt.Errorf(
 			"varint length %d exceeds available data (have %d bytes after prefix)",
 			msgLen, len(padded)-varintLen,
